@@ -364,7 +364,7 @@ class unknown_2d_ops:
                         yield {"chunks": chunks, "rows": r, "cols": c, "op": op}
 
 
-@contract("dask_array/_overlap.py::sliding_window_view", spec="over-a-layout-drifting-input", props=["C02", "C03"])
+@contract("dask_array/_overlap.py::sliding_window_view", spec="over-a-layout-drifting-input", props=["C01", "C02", "C03", "C08"])
 class swv_over_drifting_input:
     """a sliding-window view taken of an array whose optimised layout differs from its advertised one (itself a native
     sliding-window reduction over single-element blocks) computes NumPy's result (known finding F46: sliding_window_view
@@ -403,6 +403,49 @@ class swv_over_drifting_input:
                 for w1 in (2, 3):
                     for w2 in (2, 3):
                         yield {"n": n, "chunks": ch, "w1": w1, "w2": w2}
+
+
+@contract("dask_array/manipulation/_reshape.py::reshape", spec="over-a-layout-drifting-input", props=["C01", "C03", "C08"])
+class reshape_over_drifting_input:
+    """a reshape of an array whose optimised layout differs from its advertised one (a native sliding-window reduction)
+    computes NumPy's result (known finding F52: reshape lays its plan out against the input's advertised blocks -- the
+    single-partition path reshapes "the" block, Reshape's chunk plan names the blocks one by one -- and does not pin that
+    layout, so the optimised graph fails with 'cannot reshape array of size 2 into shape (3,)'; pinning it switches off the
+    slice-through-reshape pushdown that six suite tests assert)"""
+    bounded_only = True
+    params = {"shape": "const", "chunks": "const", "to": "const"}
+    scope = "2-D data (1,5) / (2,6) / (4,5) in 2 layouts, window 3 on the last axis, then ravel / merge / split reshapes"
+
+    def real():
+        return lambda: None
+
+    def call(fn, shape, chunks, to):
+        import numpy as np
+        import dask_array as da
+        swv = np.lib.stride_tricks.sliding_window_view
+        a = (np.arange(float(np.prod(shape))) * 3 % 7).reshape(shape)
+        y = da.sliding_window_view(da.from_array(a, chunks=chunks), 3, axis=-1).sum(-1)
+        ref = swv(a, 3, axis=-1).sum(-1)
+        new = {"ravel": (-1,), "split": (ref.shape[0], 1, -1), "merge": (-1,) if ref.ndim == 2 else None}[to]
+        want = ref.reshape(new)
+        try:
+            return ("computed", np.asarray(y.reshape(new).compute()), want)
+        except Exception as e:
+            return ("raised", f"{type(e).__name__}: {str(e)[:80]}", want)
+
+    def requires(shape, chunks, to):
+        return True
+
+    def ensures(result, shape, chunks, to):
+        kind, got, want = result
+        return {"reshape-computes-numpy": kind == "computed" and _same(got, want)}
+
+    def domain(tier, rng):
+        for shape, layouts in (((1, 5), [((1,), (2, 3)), ((1,), (1, 1, 1, 1, 1))]), ((2, 6), [((1, 1), (3, 3)), ((2,), (2, 2, 2))]),
+                               ((4, 5), [((2, 2), (2, 3)), ((4,), (1, 4))])):
+            for ch in layouts:
+                for to in ("ravel", "split"):
+                    yield {"shape": shape, "chunks": ch, "to": to}
 
 
 @contract("dask_array/io/_from_array.py::FromArray._with_chunks", spec="custom-getitem", props=["C24"])
@@ -1156,8 +1199,11 @@ class routines_on_drifting_input:
         import numpy as np
         import dask_array as da
         swv = np.lib.stride_tricks.sliding_window_view
-        if rank == 1:
-            v = np.arange(14.0) * 5 % 9 + 1
+        if rank in (1, 11):
+            # rank 11: the same in one dimension with 44 elements -- 42 blocks run where 14 are advertised, more than the
+            # default fan-in of a reduction tree: a routine that sizes a tree (or any per-block literal) for the
+            # advertised blocks keeps one group's answer
+            v = np.arange(14.0 if rank == 1 else 44.0) * 5 % 9 + 1
             r = da.sliding_window_view(da.from_array(v, chunks=1), 3).sum(-1)
             a = swv(v, 3).sum(-1)
         else:
@@ -1189,7 +1235,7 @@ class routines_on_drifting_input:
 
     def domain(tier, rng):
         for op in _drift_ops():
-            for rank in (1, 2):
+            for rank in (1, 2, 11):
                 yield {"op": op, "rank": rank}
 
 
@@ -4826,3 +4872,101 @@ class frisky_records_embedded(frisky_records_agree):
         for n in _c09_programs(tier):
             if _c21_embedded(n):
                 yield {"prog": n, "tier": tier}
+
+
+# ---------------------------------------------------------------------------
+# C01: generated programs compute what NumPy computes
+# ---------------------------------------------------------------------------
+class _generated_programs_base:
+    """a randomly composed program over the public API (a base array of a drawn shape, dtype and chunking, then up to four
+    / six operations drawn from 60: elementwise with broadcasting, indexing with negative steps / integers / None /
+    Ellipsis, transposes, flips, rolls, reshapes, expand / squeeze, rechunks, 11 reductions, scans, stacking, take, masks,
+    map_blocks, map_overlap, sliding windows, pad, diff, repeat, tile, in-place assignment, matmul / tensordot / outer,
+    topk) computes NumPy's values, shape and dtype -- with graph optimisation on and off"""
+    bounded_only = True
+    params = {"seed": "const", "depth": "const"}
+    scope = "program seeds 0..N-1 (quick 1500 programs of depth 4; thorough 40000 of depth 4 and 20000 of depth 6), 10 base shapes incl. 0- and 1-length axes, 5 dtypes, random chunkings"
+
+    def real():
+        return lambda self: None
+
+    def call(fn, seed, depth):
+        import dask
+        import numpy as np
+        import warnings
+        with warnings.catch_warnings():
+            warnings.simplefilter("ignore")
+            try:
+                x, want, desc = cat.generated_program(seed, depth)
+            except Exception as ex:
+                return {"desc": f"seed {seed}", "build_error": f"{type(ex).__name__}: {str(ex)[:100]}"}
+            out = {"desc": desc, "build_error": None, "shape": tuple(x.shape), "dtype": str(x.dtype), "want_shape": tuple(want.shape),
+                   "want_dtype": str(want.dtype), "vals": {}}
+            for og in (True, False):
+                try:
+                    with dask.config.set({"array.optimize-graph": og}), np.errstate(all="ignore"):
+                        x2, _, _ = cat.generated_program(seed, depth)
+                        out["vals"][og] = np.asarray(x2.compute(scheduler="sync"))
+                except Exception as ex:
+                    out["vals"][og] = f"ERR {type(ex).__name__}: {str(ex)[:100]}"
+            out["want"] = want
+        return out
+
+    def requires(seed, depth):
+        return True
+
+    def ensures(result, seed, depth):
+        if result["build_error"] is not None:
+            return {"dask_array-builds-what-numpy-computes": False}
+        unknown = any(isinstance(s, float) for s in result["shape"])
+        r = {"dask_array-builds-what-numpy-computes": True,
+             "advertised-shape-is-numpys": unknown or result["shape"] == result["want_shape"],
+             "advertised-dtype-is-numpys": result["dtype"] == result["want_dtype"]}
+        for og, v in result["vals"].items():
+            tag = "optimised" if og else "unoptimised"
+            r[f"{tag}-program-computes"] = not isinstance(v, str)
+            if not isinstance(v, str):
+                r[f"{tag}-values-shape-dtype-equal-numpy"] = (_close_for_dtype(v, result["want"]) and v.shape == result["want"].shape and
+                                                              v.dtype == result["want"].dtype)
+        return r
+
+    def domain(tier, rng):
+        raise NotImplementedError
+
+
+def _close_for_dtype(got, want):
+    """exact for exact types; for floating types within a tolerance scaled to the type's precision and to the magnitude of
+    the values (differences cancel: a float32 variance fed to diff carries the rounding of numbers 100 times larger)"""
+    import numpy as np
+    got, want = np.asarray(got), np.asarray(want)
+    if got.shape != want.shape:
+        return False
+    if want.dtype.kind not in "fc":
+        return _same(got, want)
+    eps = float(np.finfo(want.dtype).eps)
+    finite = want[np.isfinite(want)]
+    scale = float(np.max(np.abs(finite))) if finite.size else 1.0
+    with np.errstate(all="ignore"):
+        return bool(np.allclose(got, want, rtol=1e4 * eps, atol=1e4 * eps * max(scale, 1.0), equal_nan=True))
+
+
+_C01_SHARDS = 12
+
+
+def _c01_shard(k):
+    def domain(tier, rng):
+        n4, n6 = (1500, 0) if tier == "quick" else (40000, 20000)
+        import os
+        if os.environ.get("VERIF_C01_SCALE"):     # one-off deeper explorations
+            k_ = int(os.environ["VERIF_C01_SCALE"])
+            n4, n6 = n4 * k_, max(n6, 1000) * k_
+        for s in range(k, n4, _C01_SHARDS):
+            yield {"seed": s, "depth": 4}
+        for s in range(k, n6, _C01_SHARDS):
+            yield {"seed": 100000 + s, "depth": 6}
+    cls = type(f"generated_programs_{k}", (_generated_programs_base,), {"domain": domain,
+               "__doc__": _generated_programs_base.__doc__ + f" (shard {k} of {_C01_SHARDS})"})
+    return contract("dask_array/_collection.py::Array.compute", spec=f"generated-programs-{k}", props=["C01"])(cls)
+
+
+_generated_shards = [_c01_shard(k) for k in range(_C01_SHARDS)]
